@@ -20,7 +20,7 @@ def place_key(p):
         if 'deref' in e:
             out.append(('deref',))
         elif 'f' in e:
-            out.append(('f', e['f'], e.get('n')))
+            out.append(('f', e['f'], e.get('n') if e.get('n') is not None else str(e['f'])))
         elif 'dc' in e or 'vi' in e:
             out.append(('dc', e.get('dc'), e.get('vi')))
         elif 'idx' in e:
